@@ -9,7 +9,7 @@ use num::BigRational;
 
 pub struct C06;
 
-const OPERANDS: [&str; 6] = ["2", "3", "5", "7", "11", "13"];
+const OPERANDS: [&str; 7] = ["2", "3", "5", "7", "11", "13", "17"];
 
 #[derive(Clone, Debug, PartialEq)]
 enum T {
@@ -312,6 +312,9 @@ impl Prop for C06 {
     }
     fn generate(&self, tier: Tier, sink: &mut dyn FnMut(Case)) {
         let leaves: Vec<Expr> = OPERANDS.iter().map(|s| num(s)).collect();
+        // (six operators were tried for the thorough tier and dropped: with seven operands the
+        // bracketings reach towers like (5^385)^221, minutes of bignum work per case that the
+        // watchdog would report as hangs although the statement promises no speed)
         let kmax = 5;
         for k in 1..=kmax {
             let shs = shapes(k + 1);
